@@ -366,6 +366,8 @@ def greg_facts(ac, b):
     from pyvc.sym import And
     from specs import cal_abs, dt_models
 
+    ac.fixed_miy = 12  # ground obligations of the real calculator in contracts/c15_bridge.py (12 months, month lengths 28..31)
+    ac.min_dim = 28
     b.assume(And(ac.min_year == -9998, ac.max_year == 9999))
     for y in (1, 10000):
         for ax in ac.ax_year(y):
